@@ -22,12 +22,19 @@ def envelopesMeet (a b : Geom) : Bool :=
   | some ra, some rb => rectRect ra.1 ra.2 rb.1 rb.2
   | _, _ => false
 
-/-- the two self-noded graphs with their mutual intersections recorded -/
-def nodedGraphs (ar : Arith) (a b : Geom) : RGraph × RGraph × Bool × Bool :=
-  let ga := (RGraph.new 0 a).selfNode ar
-  let gb := (RGraph.new 1 b).selfNode ar
+/-- the self-noded graph of an operand: `geometry_graph(idx)` of a plain geometry followed by
+`compute_self_nodes` -/
+def freshGraph (ar : Arith) (idx : Nat) (g : Geom) : RGraph := (RGraph.new idx g).selfNode ar
+
+/-- `compute_edge_intersections`: the two graphs with the mutual intersections recorded on their
+edges, `has_proper_intersection`, `has_proper_interior_intersection` -/
+def mutualGraphs (ar : Arith) (ga gb : RGraph) : RGraph × RGraph × Bool × Bool :=
   let mu := edgeIntersections ar ga gb
   ({ ga with edges := mu.ea }, { gb with edges := mu.eb }, mu.hasProper, mu.hasProperInterior)
+
+/-- the two self-noded graphs with their mutual intersections recorded -/
+def nodedGraphs (ar : Arith) (a b : Geom) : RGraph × RGraph × Bool × Bool :=
+  mutualGraphs ar (freshGraph ar 0 a) (freshGraph ar 1 b)
 
 /-- the node map after `compute_intersection_nodes` ×2, `copy_nodes_and_labels` ×2 and
 `label_isolated_nodes` -/
@@ -41,9 +48,10 @@ def labeledNodes (a b : Geom) (ga gb : RGraph) : Option (List RNode) :=
     | none => none
     | some ns => some (ns.map (labelIsolatedNode a b))
 
-/-- the part of `compute_intersection_matrix` after the envelope test (`none`: the code panics) -/
-def relateGraph (ar : Arith) (a b : Geom) : Option IM :=
-  let (ga, gb, hasProper, hasProperInterior) := nodedGraphs ar a b
+/-- the part of `compute_intersection_matrix` after the two calls of `compute_self_nodes`, given
+the self-noded graphs `ga0`, `gb0` of the operands (`none`: the code panics) -/
+def relateGraphs (ar : Arith) (a b : Geom) (ga0 gb0 : RGraph) : Option IM :=
+  let (ga, gb, hasProper, hasProperInterior) := mutualGraphs ar ga0 gb0
   match labeledNodes a b ga gb with
   | none => none
   | some ns =>
@@ -62,6 +70,10 @@ def relateGraph (ar : Arith) (a b : Geom) : Option IM :=
           updateNodes a b ns m
         | _, _ => none
 
+/-- the part of `compute_intersection_matrix` after the envelope test, for plain operands -/
+def relateGraph (ar : Arith) (a b : Geom) : Option IM :=
+  relateGraphs ar a b (freshGraph ar 0 a) (freshGraph ar 1 b)
+
 /-- `RelateOperation::compute_intersection_matrix` (`none`: the code panics), in the arithmetic
 `ar` -/
 def relateImplWith (ar : Arith) (a b : Geom) : Option IM :=
@@ -69,6 +81,34 @@ def relateImplWith (ar : Arith) (a b : Geom) : Option IM :=
 
 /-- `RelateOperation::compute_intersection_matrix` in exact arithmetic (`none`: the code panics) -/
 def relateImpl? (a b : Geom) : Option IM := relateImplWith Arith.exact a b
+
+/-! ### prepared operands (C17)
+
+`PreparedGeometry` caches the graph built for argument index 0 and self-noded once
+(`prepare_geometry`); `geometry_graph(idx)` hands out `clone_for_arg_index(idx)`: a deep copy,
+with the two label slots of every node and edge exchanged when `idx = 1`. Bounding rectangle and
+`HasDimensions` are those of the geometry. -/
+
+/-- `Edge::swap_label_args` -/
+def REdge.swap (e : REdge) : REdge := { e with label := e.label.swap }
+
+/-- `PlanarGraph::swap_labels` -/
+def RGraph.swapLabels (r : RGraph) : RGraph :=
+  { r with nodes := r.nodes.map Node.swap, edges := r.edges.map REdge.swap }
+
+/-- `GeometryGraph::clone_for_arg_index(idx)` of a graph built for index 0 -/
+def RGraph.cloneForArg (r : RGraph) (idx : Nat) : RGraph :=
+  if idx = 0 then r else { r.swapLabels with idx := idx }
+
+/-- `PreparedGeometry::geometry_graph(idx)` -/
+def preparedGraph (ar : Arith) (idx : Nat) (g : Geom) : RGraph := (freshGraph ar 0 g).cloneForArg idx
+
+/-- `relate` with each operand plain (`false`) or prepared (`true`) -/
+def relatePreparedWith (ar : Arith) (pa pb : Bool) (a b : Geom) : Option IM :=
+  if envelopesMeet a b then
+    relateGraphs ar a b (if pa then preparedGraph ar 0 a else freshGraph ar 0 a)
+      (if pb then preparedGraph ar 1 b else freshGraph ar 1 b)
+  else some (disjointIM a b)
 
 end Geo.RI
 
